@@ -27,7 +27,7 @@ pub fn pool() -> Vec<(&'static str, &'static str)> {
         ("enum", "enum E# { A , B }"),
         ("error-event", "error Er# ( uint256 a ) ; event Ev# ( address indexed a ) ;"),
         ("unchecked", "contract U# { function u# ( uint256 n ) public { unchecked { ++ n ; } for ( uint256 i = 0 ; i < n ; i ++ ) { n -- ; } } }"),
-        ("two-functions", "contract T# { function one# ( address a ) private { require ( a != address ( 0 ) && a != address ( this ) , \"zero address is not allowed as a parameter\" ) ; } function _two# ( bool b ) external { if ( b == true ) { } } }"),
+        ("two-functions", "contract T# { function one# ( address a ) private { require ( a != address ( 0 ) && a != address ( this ) , \"zero~address~is~not~allowed~as~a~parameter\" ) ; } function _two# ( bool b ) external { if ( b == true ) { } } }"),
         ("single-narrow-var", "contract O# { address owner# ; }"),
         ("optimal-pair", "contract P# { uint256 total# ; uint96 fee# ; }"),
         ("packable-contract", "contract Q# { uint128 a# ; uint256 b# ; uint128 c# ; }"),
@@ -37,7 +37,8 @@ pub fn pool() -> Vec<(&'static str, &'static str)> {
 }
 
 fn instantiate(tpl: &str, suffix: &str) -> Vec<String> {
-    tpl.split(' ').filter(|t| !t.is_empty()).map(|t| t.replace('#', suffix)).collect()
+    // '~' stands for a blank inside a string literal (tokens are separated by blanks)
+    tpl.split(' ').filter(|t| !t.is_empty()).map(|t| t.replace('#', suffix).replace('~', " ")).collect()
 }
 
 fn render(tokens: &[Option<&String>]) -> String {
